@@ -269,7 +269,7 @@ impl Scenario for DnsSc {
 
 pub fn cfgs(tier: &str) -> Vec<(DnsCfg, Bounds)> {
     let q = tier == "quick";
-    let wall = Duration::from_secs(if q { 15 } else { 300 });
+    let wall = Duration::from_secs(if q { 150 } else { 900 });
     let printable: String = (33u8..127).map(|b| b as char).collect();
     let n24 = "abcdefghijklmnopqrstuvwx".to_string();
     let n25 = "abcdefghijklmnopqrstuvwxy".to_string();
